@@ -11,7 +11,7 @@ from dataclasses import dataclass, field
 from sa.consteval import ConstEval, NotConstant
 from sa.model import Model
 from sa.paths import Engine, Path, Unsupported, loop_iterations, show_sv, strip_epoch
-from sa.report import Undecided
+from sa.report import ModelViolation, Undecided
 from sa.seqbuf import BufSem
 
 MOD = "hdlc"
@@ -92,7 +92,30 @@ class StepPath:
 
 
 class HdlcModel:
+    _CACHE = {}
+
+    def __new__(cls, src):
+        """one model per source set (the checks and the clauses they import from each other all read the same model)"""
+        ent = cls._CACHE.get(id(src))
+        if ent is not None and ent[0] is src:
+            if isinstance(ent[1], Exception):
+                raise ent[1]
+            return ent[1]
+        obj = super().__new__(cls)
+        try:
+            obj._build(src)
+        except Exception as ex:
+            from sa.report import ModelViolation, Undecided
+            if isinstance(ex, (ModelViolation, Undecided)):
+                cls._CACHE[id(src)] = (src, ex)
+            raise
+        cls._CACHE[id(src)] = (src, obj)
+        return obj
+
     def __init__(self, src):
+        pass
+
+    def _build(self, src):
         self.src = src
         self.M = Model(src)
         self.ce = ConstEval(self.M)
@@ -158,7 +181,6 @@ class HdlcModel:
             if len(exact) == 1:
                 setattr(r, role, exact.pop())
             elif not exact and mixed:
-                from sa.report import ModelViolation
                 raise ModelViolation(f"hdlc.HdlcFrameReader.__init__", f"mode-flag:{par}", f"the reader's {role} mode is not the constructor argument {par} but `{show_sv(mixed[0][1])[:80]}` "
                                      f"(stored in self.{mixed[0][0]}): for some argument combinations the reader frames the stream in the other mode", self.src.file("hdlc") if hasattr(self, "src") else "han/hdlc.py",
                                      init.node.lineno)
@@ -184,6 +206,9 @@ class HdlcModel:
         raws = [a for a, v in c.field_inits.items() if isinstance(v, ast.Call) and isinstance(v.func, ast.Name) and v.func.id == "bytearray" and a != r.buffer]
         if len(raws) == 1:
             r.raw = raws[0]
+        for nm_, l1_, l2_ in self.M.shared_mutable_state(READER):
+            raise ModelViolation("hdlc.HdlcFrameReader", f"shared-class-state:{nm_}", f"`{nm_}` is a mutable container created once in the class body and modified in place through self.{nm_} "
+                                 f"(line {l2_}) without ever being bound per instance: all reader objects share it, so what one reader has received changes what another one does", self.src.file("hdlc"), l1_)
         missing = [k for k in ("frame", "pending", "buffer", "stuffing", "abort", "buffer_cls") if getattr(r, k) is None]
         if missing:
             raise Undecided(f"cannot bind reader roles {missing} from the public API")
@@ -192,11 +217,11 @@ class HdlcModel:
             fv = strip_epoch(p.store.get(("f", SELF, r.frame), ("c", None)))
             pv = strip_epoch(p.store.get(("f", SELF, r.pending), ("c", False)))
             if fv[0] == "new" or (fv[0] == "c" and fv[1] is not None):
-                from sa.report import ModelViolation
+
                 raise ModelViolation("hdlc.HdlcFrameReader.__init__", "initial-state", "a new reader starts with a frame in progress instead of hunting for a flag: octets received before the first flag "
                                      "are collected and can be returned as a frame that no flag opened", self.src.file("hdlc"), init.node.lineno, witness=f"self.{r.frame} = {show_sv(fv)[:60]}")
             if pv == ("c", True):
-                from sa.report import ModelViolation
+
                 raise ModelViolation("hdlc.HdlcFrameReader.__init__", "initial-state", "a new reader starts with a pending escape", self.src.file("hdlc"), init.node.lineno)
         return r
 
